@@ -1,5 +1,6 @@
 use crate::generator::{Derive, Features};
 use proc_macro2::{Ident, Span};
+use syn::ext::IdentExt;
 
 pub(crate) struct Names {
     pub(crate) ident_as_str: Ident,
@@ -23,6 +24,7 @@ pub(crate) struct Names {
 impl Names {
     pub(crate) fn new(features: &Features, derive: &Derive) -> Self {
         let Derive { ident_enum, .. } = derive;
+        let ident_enum = ident_enum.unraw();
         Self {
             ident_as_str: Ident::new(&features.as_str_fn.name, Span::call_site()),
             ident_from_str_fn: Ident::new(&features.from_str_fn.name, Span::call_site()),
